@@ -85,6 +85,11 @@ func (d *legacyDom) Gen(r *gen.R, tier string, emit func(string)) {
 	if tier == "thorough" {
 		blocks = 2500
 	}
+	for _, pkg := range []string{"mw", "rb"} {
+		emit(wire.Line("reset"))
+		emit(wire.Line("cfg", pkg, "coll", "N"))
+		emit(wire.Line("bigints"))
+	}
 	for b := 0; b < blocks; b++ {
 		emit(wire.Line("reset"))
 		model := r.Bool()
@@ -436,6 +441,35 @@ func (d *legacyDom) Exec(a []string) string {
 		case "remove":
 			idx, _ := strconv.Atoi(a[1])
 			return d.event(func(r res.Resource) { r.RemoveEvent(idx) })
+		case "bigints":
+			// a collection holding integers that a float64 cannot keep exactly; an add and a remove of other
+			// elements must leave them as they are. The served text is compared, not a decoded value.
+			big := []string{"9007199254740993", "-9007199254740995", "123456789012345678901234567890"}
+			vals := make([]interface{}, len(big)+1)
+			for i, b := range big {
+				vals[i] = json.Number(b)
+			}
+			vals[len(big)] = "x"
+			steps := []func(r res.Resource){
+				func(r res.Resource) { r.CreateEvent(vals) },
+				func(r res.Resource) { r.AddEvent("y", 1) },
+				func(r res.Resource) { r.RemoveEvent(1) },
+				func(r res.Resource) { r.RemoveEvent(len(big)) },
+			}
+			for _, st := range steps {
+				if out := d.event(st); !strings.HasPrefix(out, "pub=T fail=F") {
+					return "event-failed:" + out
+				}
+			}
+			resp, ok := d.run.Request("get.svc.r", nil, 5000)
+			if !ok {
+				return "noreply"
+			}
+			var raw struct {
+				Result map[string]json.RawMessage `json:"result"`
+			}
+			json.Unmarshal(resp, &raw)
+			return "coll=" + wire.Enc(compactJSON(raw.Result["collection"]))
 		case "create":
 			v := d.parseVal(a[1:])
 			return d.event(func(r res.Resource) { r.CreateEvent(v) })
